@@ -3,7 +3,6 @@ use crate::fam_bank::{gen_balance, gen_bank, gen_op_amount, run_wrapper_op, Bal,
 use crate::fam_tokenfee::{gen_cfg, tf};
 use crate::mon::Report;
 use crate::rng::Rng;
-use marginfi::utils::calculate_pre_fee_amount;
 use num_bigint::BigInt;
 
 fn net(b: &B, x: &Bal) -> BigInt {
@@ -56,7 +55,7 @@ pub fn run(rng: &mut Rng, n: usize, rep: &mut Report) {
                 continue;
             }
             let t = tf(bps, max);
-            if let Ok(Some(pre)) = std::panic::catch_unwind(|| calculate_pre_fee_amount(&t, post)) {
+            if let Some(pre) = crate::fam_tokenfee::pre_fee(bps, max, post) {
                 if let Some(fee) = t.calculate_fee(pre) {
                     rep.bump("prefee");
                     if pre - fee < post {
